@@ -10,8 +10,4 @@ V1 = ufl.FunctionSpace(m1, basix.ufl.element("Lagrange", "triangle", 1))
 V2 = ufl.FunctionSpace(m2, basix.ufl.element("Lagrange", "triangle", 2))
 u, v = ufl.Coefficient(V1), ufl.Coefficient(V2)
 M = u * ufl.dx(m1) + v * v * ufl.dx(m2) + u * ufl.ds(m1) + v * ufl.ds(m2)
-# the same geometric quantity of both meshes in one integral (both map to one C symbol, which must be defined once)
-x1, x2 = ufl.SpatialCoordinate(m1), ufl.SpatialCoordinate(m2)
-p, q = ufl.TrialFunction(V1), ufl.TestFunction(V1)
-a = ufl.sin(x1[0]) * ufl.cos(x2[0]) * p * q * ufl.dx(m1) + x1[1] * x2[1] * v * p * q * ufl.ds(m1)
-forms = [M, a]
+forms = [M]
